@@ -48,6 +48,19 @@ Fixpoint feed (xs : nat -> Qc) (c : nat) (buf0 : list Qc) : list Qc :=
   match c with O => buf0 | S c' => call (feed xs c' buf0) (xs c') end.
 
 (* ------------------------------------------------------------------------------------------------ *)
+(* _add_matrix_delay, discrete branch (Connectivity with `delays`, no spread): a buffer of shape (Ns, d+1), every rhs call
+   index_axis(buf) = roll(buf, 1, 1); index_axis(buf, 0, 1) = x; x_buffered = index_axis(buf, d, 1); target = matvec(W, x_buffered) *)
+Definition mcall (buf : list (list Qc)) (x : list Qc) : list (list Qc) := map (fun p => call (fst p) (snd p)) (combine buf x).
+Fixpoint mfeed (X : nat -> list Qc) (c : nat) (buf0 : list (list Qc)) : list (list Qc) :=
+  match c with O => buf0 | S c' => mcall (mfeed X c' buf0) (X c') end.
+Definition mbuf0 (Ns d : nat) : list (list Qc) := repeat (repeat 0%Qc (S d)) Ns.
+Definition dotq (w v : list Qc) : Qc := qsum (zip Qcmult w v).
+Definition matvec (W : list (list Qc)) (v : list Qc) : list Qc := map (fun w => dotq w v) W.
+(* what the targets receive at rhs call number c (0-based) *)
+Definition mat_delivered (W : list (list Qc)) (X : nat -> list Qc) (Ns d c : nat) : list Qc :=
+  matvec W (map (read d) (mfeed X (S c) (mbuf0 Ns d))).
+
+(* ------------------------------------------------------------------------------------------------ *)
 (* bookkeeping of _add_edge_buffer for many edges on one source variable (vectorized form):
    edge i comes with its slots  nodes[i] = source units, dl[i] = delays;  the flat lists are concatenations,
    buffered[j] = buf[source_idx[j]][delays[j]], edge i is re-pointed to range(idx_l, idx_l + len nodes[i]) *)
@@ -85,10 +98,16 @@ Definition skey (c : circuit) (e : edge) : nat := nkey c (esrc e).
 Definition tkey (c : circuit) (e : edge) : nat := nkey c (etgt e).
 
 (* _collect_delays_from_edges: steps of one edge before the add_delay decision *)
+(* model switches for the proposed repairs (fixes/proposed_fix_C09_D15.diff, proposed_fix_C09_D34.diff): false = the code
+   as it is.  D15: an edge without delay entry counts as 1 step (repaired: 0, i.e. it reads slot 0 = the current value);
+   D34: `delay: None` written out becomes the NUMBER 1 = one time unit (repaired: like a missing entry). *)
+Definition fixed_D15 : bool := false.
+Definition fixed_D34 : bool := false.
+Definition nokey_steps : nat := if fixed_D15 then 0 else 1.
 Definition rsteps (dt : Qc) (e : edge) : nat :=
   match ed e with
-  | NoKey => 1
-  | ExplNone => steps_of 1%Qc dt
+  | NoKey => nokey_steps
+  | ExplNone => if fixed_D34 then nokey_steps else steps_of 1%Qc dt
   | Delay d => steps_of d dt
   end.
 Definition is_delayed (e : edge) : bool := match ed e with Delay _ => true | _ => false end.
@@ -193,9 +212,10 @@ Definition wf (c : circuit) : bool :=
                     match ed e with Delay d => Qcpos d | _ => true end) (cedges c).
 (* D7 *)
 Definition g_euler (c : circuit) : bool := negb (cheun c).
-(* D15 / D24: no edge without delay leaves a (merged) source variable that is buffered *)
+(* D15 / D24: an edge without delay that leaves a buffered (merged) source variable must read slot 0 (true of no such edge
+   in the code as it is: it counts as 1 step; always true once fixed_D15 and fixed_D34 hold) *)
 Definition g_no_undelayed_sibling (c : circuit) : bool :=
-  forallb (fun e => is_delayed e || negb (gadd c (skey c e))) (cedges c).
+  forallb (fun e => is_delayed e || negb (gadd c (skey c e)) || Nat.eqb (rsteps (cdt c) e) 0) (cedges c).
 (* D18 and its both-delayed variant (loud) *)
 Definition g_no_parallel_buffered (c : circuit) : bool := negb (crashes c).
 (* `delay: None` written out *)
